@@ -1,4 +1,5 @@
 import PgBifrost.Proofs.ClientC07b
+import PgBifrost.Proofs.ClientC07c
 /-!
 # C07 — transaction framing and delivery-instance identity assigned by the client
 
@@ -31,6 +32,14 @@ theorem keys_unique (v : Variant) (evs : List Ev) (hclk : ClockStrictPerTxn evs)
 theorem one_commit_per_key (v : Variant) (evs : List Ev) (hpg : pgGrammar (hist v evs) = true)
     (hclk : ClockStrictPerTxn evs) (hids : TxnIdsNoDash evs) : c07OneCommit (hist v evs) = true :=
   oneCommit_hist v evs hpg hclk hids
+
+/-- **at most one COMMIT per key, full statement** (error responses included) for the code as it is now
+(model variant `.fixedC`, after the repair of F2): the synthetic COMMIT of error recovery is emitted only
+while a delivery is open downstream and closes it, so it can neither double a real COMMIT nor be doubled.
+(For the pre-fix variants this is false: `recovery_today_witness_b` of C02.) -/
+theorem one_commit_per_key_full (evs : List Ev) (hpg : pgGrammar (hist .fixedC evs) = true)
+    (hclk : ClockStrictPerTxn evs) (hids : TxnIdsNoDash evs) : c07OneCommitFull (hist .fixedC evs) = true :=
+  oneCommitFull_hist evs hpg hclk hids
 
 /-- run level: a BEGIN that arrives while the previous accepted BEGIN has no COMMIT is not forwarded
 and the connection is closed; any other BEGIN is forwarded (the start position of the reconnect is
@@ -92,6 +101,39 @@ example : fwdsOf (acts (hist .today exEvs)) =
 example : startsOf (acts (hist .today exEvs)) = [120, 120, 120] := by decide
 example : c07Stamp (hist .today exEvs) = true ∧ c07KeysUnique (hist .today exEvs) = true ∧
     c07OneCommit (hist .today exEvs) = true ∧ c07Framing (hist .today exEvs) = true := by decide
+/-- non-vacuity of the full statement: error responses inside a transaction (synthetic COMMIT for the open
+key) and between transactions (nothing forwarded) -/
+def exEvsErr : List Ev := [
+  ⟨[], .keepalive false 100 0, false⟩,
+  ⟨[], .data 110 (.begin "7") 1000 [], false⟩,
+  ⟨[], .data 115 .change 0 [], false⟩,
+  ⟨[], .errorResponse 200, false⟩,
+  ⟨[], .data 210 (.begin "8") 2000 [], false⟩,
+  ⟨[], .data 220 (.commit "8") 0 [], false⟩,
+  ⟨[], .errorResponse 300, false⟩,
+  ⟨[], .data 310 (.begin "9") 3000 [], false⟩,
+  ⟨[], .data 320 (.commit "9") 0 [], false⟩]
+example : pgGrammar (hist .fixedC exEvsErr) = true := by decide
+example : commitKeys (acts (hist .fixedC exEvsErr)) = ["7-1000", "8-2000", "9-3000"] := by decide
+example : c07OneCommitFull (hist .fixedC exEvsErr) = true := by decide
+/-- … and the pre-fix code fails it on the same stream (second COMMIT for `8-2000`) -/
+example : c07OneCommitFull (hist .today exEvsErr) = false := by decide
+
+/-- the grammar admits what PostgreSQL does after a reconnect: the last transaction, whose COMMIT was
+already received, is sent again with the same COMMIT position (`txns_dup` in the code) — and an error
+response right after it must not double that COMMIT -/
+def exEvsDup : List Ev := [
+  ⟨[], .keepalive false 100 0, false⟩,
+  ⟨[], .data 110 (.begin "7") 1000 [], false⟩,
+  ⟨[], .data 120 (.commit "7") 0 [], false⟩,
+  ⟨[], .closedErr, false⟩,
+  ⟨[], .data 110 (.begin "7") 2000 [], false⟩,
+  ⟨[], .data 120 (.commit "7") 0 [], false⟩,
+  ⟨[], .errorResponse 300, false⟩]
+example : pgGrammar (hist .fixedC exEvsDup) = true := by decide
+example : commitKeys (acts (hist .fixedC exEvsDup)) = ["7-1000", "7-2000"] := by decide
+example : c07OneCommitFull (hist .fixedC exEvsDup) = true := by decide
+
 /-- the specs reject a message stamped with another delivery's key, a reused key, a second COMMIT,
 and a forwarded BEGIN without preceding COMMIT -/
 example : c07Stamp [(⟨[], .keepalive false 0 0, false⟩, []),
